@@ -155,7 +155,9 @@ func TestC09Truthiness(t *testing.T) {
 	vals := []*E{Bool(false), Int(0), Str(""), Null(), List(), Hash(nil, nil), Bool(true), Int(1), Int(-1), Int(7), Str("0"), Str(" "), Str("a"), Str("false"),
 		List(Int(0)), List(List()), Hash([]string{"k"}, []*E{Int(0)}), List(Str(""))}
 	forms := []func(x *E) []*S{
-		func(x *E) []*S { return []*S{{K: "if", Conds: []*E{x}, Bodies: [][]*S{{Text("T")}}, HasElse: true, Else: []*S{Text("F")}}} },
+		func(x *E) []*S {
+			return []*S{{K: "if", Conds: []*E{x}, Bodies: [][]*S{{Text("T")}}, HasElse: true, Else: []*S{Text("F")}}}
+		},
 		func(x *E) []*S { return []*S{{K: "if", Conds: []*E{x}, Bodies: [][]*S{{Text("T")}}}, Text("|")} },
 		func(x *E) []*S {
 			return []*S{{K: "if", Conds: []*E{Bool(false), x, Bool(true)}, Bodies: [][]*S{{Text("A")}, {Text("B")}, {Text("C")}}, HasElse: true, Else: []*S{Text("D")}}}
